@@ -852,7 +852,24 @@ fn observe(c: &Ctx, res: Resources<'_>, depth: u32, budget: u64, qs: &[&str]) ->
 			}
 		}
 	}
-	format!("root={} walk={} fsck={} lines={} q={} man={} ver={} icons={} cursors={} grp={}", roots, join(&items, ","), fsck, lines, join(&qr, ","), man, ver, join(&icons, ","), join(&cursors, ","), join(&grp, ","))
+	// Display / eq round trip of ids: boundary values and the ids of the "g" queries.
+	// text of `Name::Id(id)` as hex, then Name == str, Name::Str == Name::Id, Name::Id == Name::Str
+	let mut ids: Vec<u32> = vec![0, 9, 10, 99, 100, 65535, 65536, 2147483647, 2147483648, 4294967295];
+	for q in qs {
+		let p: Vec<&str> = q.split(':').collect();
+		if p[0] == "g" && p[1].starts_with('i') {
+			ids.push(p[1][1..].parse::<u32>().unwrap());
+		}
+	}
+	let disp: Vec<String> = ids
+		.iter()
+		.map(|&id| {
+			let n = Name::Id(id);
+			let s = format!("{}", n);
+			format!("{}/{}{}{}", hex(s.as_bytes()), PartialEq::<str>::eq(&n, s.as_str()) as u8, (Name::Str(&s) == n) as u8, (n == Name::Str(&s)) as u8)
+		})
+		.collect();
+	format!("root={} walk={} fsck={} lines={} q={} man={} ver={} icons={} cursors={} grp={} disp={}", roots, join(&items, ","), fsck, lines, join(&qr, ","), man, ver, join(&icons, ","), join(&cursors, ","), join(&grp, ","), join(&disp, ","))
 }
 
 fn run(case: &str) -> String {
